@@ -19,21 +19,21 @@ import (
 
 // gtp5g generic-netlink commands (numeric values of go-gtp5gnl/cmd.go; shared trusted constants)
 const (
-	CmdAddPDR = 1
-	CmdAddFAR = 2
-	CmdAddQER = 3
-	CmdDelPDR = 4
-	CmdDelFAR = 5
-	CmdDelQER = 6
-	CmdGetPDR = 7
-	CmdGetFAR = 8
-	CmdGetQER = 9
-	CmdAddURR = 10
-	CmdAddBAR = 11
-	CmdDelURR = 12
-	CmdDelBAR = 13
-	CmdGetURR = 14
-	CmdGetBAR = 15
+	CmdAddPDR          = 1
+	CmdAddFAR          = 2
+	CmdAddQER          = 3
+	CmdDelPDR          = 4
+	CmdDelFAR          = 5
+	CmdDelQER          = 6
+	CmdGetPDR          = 7
+	CmdGetFAR          = 8
+	CmdGetQER          = 9
+	CmdAddURR          = 10
+	CmdAddBAR          = 11
+	CmdDelURR          = 12
+	CmdDelBAR          = 13
+	CmdGetURR          = 14
+	CmdGetBAR          = 15
 	CmdGetVersion      = 16
 	CmdGetReport       = 17
 	CmdBufferGtpu      = 18
@@ -137,19 +137,19 @@ func (r *Rule) get(t int) []Attr {
 
 // Req is one request as the kernel received it.
 type Req struct {
-	N      int    // ordinal
-	Conn   string // "main" | "ps"
-	Cmd    int
-	Op     string // create update remove get query mquery version
-	Kind   string
-	SEID   uint64
-	ID     uint64
-	Flags  int
-	Link   int
-	Attrs  []Attr // all attributes of the request (link, id, seid and rule attributes)
-	Errno  int    // reply
-	Reps   []Report
-	OIDs   [][2]uint64 // mquery
+	N     int    // ordinal
+	Conn  string // "main" | "ps"
+	Cmd   int
+	Op    string // create update remove get query mquery version
+	Kind  string
+	SEID  uint64
+	ID    uint64
+	Flags int
+	Link  int
+	Attrs []Attr // all attributes of the request (link, id, seid and rule attributes)
+	Errno int    // reply
+	Reps  []Report
+	OIDs  [][2]uint64 // mquery
 }
 
 // Report is one usage report produced by the kernel.
@@ -178,10 +178,10 @@ type Kernel struct {
 	// Fail, when set, may turn a request into an error reply (errno > 0) before it takes effect
 	Fail func(r *Req) int
 	// Hook is called (kernel goroutine) after a request was processed
-	Hook   func(r *Req)
-	mcast  *Conn
+	Hook     func(r *Req)
+	mcast    *Conn
 	inflight int
-	idle   *sync.Cond
+	idle     *sync.Cond
 }
 
 func New() *Kernel {
@@ -198,6 +198,7 @@ type Conn struct {
 	seq     int
 	name    string
 	closed  bool
+	served  chan struct{} // closed when the kernel goroutine serving the connection has returned
 	mu      sync.Mutex
 }
 
@@ -207,8 +208,14 @@ func (c *Conn) Close() {
 	defer c.mu.Unlock()
 	if !c.closed {
 		c.closed = true
-		syscall.Close(c.fd)
+		// wake the kernel goroutine serving this connection and wait until it is gone BEFORE the descriptors are
+		// released: a goroutine that is between two reads when the number is re-used by the next connection would
+		// otherwise steal that connection's requests (and answer them from a stale rule table)
 		syscall.Shutdown(c.kfd, syscall.SHUT_RDWR)
+		if c.served != nil {
+			<-c.served
+		}
+		syscall.Close(c.fd)
 		syscall.Close(c.kfd)
 	}
 }
@@ -241,7 +248,7 @@ func (k *Kernel) NewConn(name string) (*Conn, error) {
 	if err != nil {
 		return nil, err
 	}
-	c := &Conn{fd: a, kfd: b, name: name}
+	c := &Conn{fd: a, kfd: b, name: name, served: make(chan struct{})}
 	go k.serve(c)
 	return c, nil
 }
@@ -260,6 +267,7 @@ func (k *Kernel) NewMcastConn() (*Conn, error) {
 }
 
 func (k *Kernel) serve(c *Conn) {
+	defer close(c.served)
 	buf := make([]byte, 1<<16)
 	for {
 		n, err := syscall.Read(c.kfd, buf)
